@@ -114,7 +114,7 @@ def move_bookkeeping(ctx: Ctx, parts=ALL_PARTS):
         d = flow.dump(c.args[1]) if len(c.args) > 1 else "?"
         s_ok = flow.dump(c.args[0]) == sim
         traversed = any(flow.dump(a) == f"{trav}.experienced_route" and pol is True for a, pol in p.facts())
-        if any(flow.dump(a) == f"{mech}.is_empty({consumed})" and pol is True for a, pol in p.facts()):
+        if any(pol is True and isinstance(a, ast.Call) and flow.dump(a.func) == f"{mech}.is_empty" and a.args and consumed in flow.dump(a.args[0]) for a, pol in p.facts()):
             continue  # the out-of-energy branch: the vehicle does not travel on; what it may commit there is C04-D4's clause
         if traversed:
             n_move += 1
@@ -158,7 +158,9 @@ def move_bookkeeping(ctx: Ctx, parts=ALL_PARTS):
                              "distance_traveled_km is written only inside Vehicle", 1, owner_hint=owner)
 
 
-def partition(ctx: Ctx):
+def partition(ctx: Ctx, progress: bool = True):
+    """progress=True (C06): an early return of traverse() yields the empty traversal (the vehicle is done). progress=False
+    (C07): handing the whole plan back as remaining is as consistent with the vehicle's position as handing back nothing."""
     repo = ctx.repo
     at = repo.func(RT, "RouteTraversal.add_traversal")
     t = at.params[1]
@@ -191,7 +193,7 @@ def partition(ctx: Ctx):
         if p.kind != "return":
             continue
         if flow.classify_result(p.value) == "ok":
-            ok = flow.dump(p.value.elts[1]) == "RouteTraversal()"
+            ok = flow.dump(p.value.elts[1]) == "RouteTraversal()" or (not progress and flow.dump(p.value.elts[1]) == f"RouteTraversal(remaining_route={route})")
             ctx.check(ok, "D2", "DU.partition", "traverse: early returns yield the empty traversal (nothing experienced, nothing remaining)", tr, p.end,
                       why_bad=f"returns {flow.dump(p.value.elts[1])[:120]} under [{p.cond_text()[:120]}]", construct="traverse:early-return")
         else:
